@@ -162,6 +162,19 @@ type wireResult struct {
 	pkgEnc, pkgDec, fxEnc, fxDec string // "" = ok, "n/a" = this codec has no such operation, otherwise what went wrong
 }
 
+// fxPairsEqual: the decoded extension pairs are the encoded ones, each with its own name and data, in order.
+func fxPairsEqual(got []*sshfx.ExtensionPair, want []sshfx.ExtensionPair) bool {
+	if len(got) != len(want) {
+		return false
+	}
+	for i := range want {
+		if got[i] == nil || got[i].Name != want[i].Name || got[i].Data != want[i].Data {
+			return false
+		}
+	}
+	return true
+}
+
 func catch(f func() string) (s string) {
 	defer func() {
 		if r := recover(); r != nil {
@@ -255,6 +268,11 @@ func checkWireCase(c wireCase) wireResult {
 				if q.Version != ver || len(q.Extensions) != len(pairs) {
 					return "fields differ"
 				}
+				for i, e := range pairs { // every pair, in order, with its own name and data
+					if q.Extensions[i].Name != string(bs(e[0])) || q.Extensions[i].Data != string(bs(e[1])) {
+						return "extension pairs differ"
+					}
+				}
 				return ""
 			})
 		}
@@ -278,7 +296,7 @@ func checkWireCase(c wireCase) wireResult {
 				if err := q.UnmarshalBinary(want[5:]); err != nil { // the body after the type byte
 					return "error: " + err.Error()
 				}
-				if q.Version != ver || len(q.Extensions) != len(fxp_) {
+				if q.Version != ver || !fxPairsEqual(q.Extensions, fxp_) {
 					return "fields differ"
 				}
 			} else {
@@ -286,7 +304,7 @@ func checkWireCase(c wireCase) wireResult {
 				if err := q.UnmarshalBinary(want[5:]); err != nil {
 					return "error: " + err.Error()
 				}
-				if q.Version != ver || len(q.Extensions) != len(fxp_) {
+				if q.Version != ver || !fxPairsEqual(q.Extensions, fxp_) {
 					return "fields differ"
 				}
 			}
